@@ -601,7 +601,7 @@ def selftest(ctx) -> None:
 
 
 def run(ctx) -> None:
-    parallel(ctx, _shard, [(ctx.n(250, 8000),)] * 16)
+    parallel(ctx, _shard, [(ctx.n(400, 6000),)] * 16)
     ctx.exhaustive = False
 
 
